@@ -40,7 +40,7 @@ prop(
     level="proof",
     design_ref="DESIGN.md section 3, C12",
     groups=[(["./decoder"], r".*")],
-    canaries=[("./decoder", "replay/C12/zz_replay_c12_test.go", "TestVerifReplayC12"), ("./decoder", "replay/C12/zz_json_cut_test.go", "TestVerifJsonCutEscapes")],
+    canaries=[("./decoder", "replay/C12/zz_replay_c12_test.go", "TestVerifReplayC12"), ("./decoder", "replay/C12/zz_json_cut_test.go", "TestVerifJsonCutEscapes"), ("./decoder", "replay/C12/zz_cri_partial_last_byte_test.go", "TestVerifCRIPartialKeepsLastByte")],
     claim=(
         "Totality and frame of the hand-written decoders, for every byte string: DecodeCRI, DecodePostgres, nginx error (Decode, extractCustomFields, spaceSplit), "
         "syslog priority, RFC3164 (Decode, validateTimestamp), RFC5424 (Decode, validateTimestamp, parseStructuredData with its closures inlined and bytes.Reader modelled over its real fields, "
@@ -455,16 +455,17 @@ prop(
     level="other",
     design_ref="DESIGN.md section 3, C15",
     groups=[(["./plugin/action/join", "./pipeline"], r"^(\(\*Plugin\)\.(Do|flush|isNextOK)|\(\*processor\)\.(processEvent|Propagate|doActions))$"),
-            (["./plugin/input/k8s"], r"^\(\*MultilineAction\)\.(Do|resetLogBuf)$")],
+            (["./plugin/input/k8s"], r"^(\(\*MultilineAction\)\.(Do|resetLogBuf)|endsWithNewLine)$")],
+    canaries=[("./plugin/input/k8s", "replay/C15/zz_k8s_backslash_n_test.go", "TestVerifK8sBackslashNIsNotEndOfLine")],
     claim=(
         "Single-step contracts of multi-line reassembly, for every value and every classification outcome (start / continue tests are uninterpreted): the join action's Do follows the table "
         "time-out -> flush, Discard; field absent -> flush if joining, Pass; start line -> flush if joining, hold this event, buffer = value, Hold; joining and continuing -> Collapse, buffer += value iff max_event_size == 0 or len(buffer) < it; otherwise flush if joining, Pass; "
         "flush propagates exactly the held event once and leaves the plugin idle; the invariant isJoining == (initial != nil) is preserved; isNextOK applies negate to the regexp path only; "
-        "the processor takes the next event after Hold / Collapse from the same stream, and Propagate continues a held event at the next action; the k8s multiline action keeps its buffer invariant and never slices out of range."
+        "the processor takes the next event after Hold / Collapse from the same stream, and Propagate continues a held event at the next action; the k8s multiline action keeps its buffer invariant and never slices out of range, and its end-of-line test is an escaped line feed (the letter n after an odd run of backslashes: endsWithNewLine, loop invariant over the run)."
     ),
     undecided=[
         "maximal-run semantics over whole event sequences (an induction over the single-step contracts, on paper in DESIGN.md), several processors, stream time-out placement",
-        "join_template's matchers; the k8s multiline buffering table beyond safety (isEnd / shouldSplit / skip / cut-off decisions)",
+        "join_template's matchers; the k8s multiline buffering table beyond safety and the end-of-line test (shouldSplit / skip / cut-off decisions)",
         "that the flushed event's field is set to the buffer goes through insane-json (MutateToString): abstracted",
     ],
     assumptions=["regexp matching and insane-json calls are abstracted (pure / preserving the plugin state)"],
